@@ -20,9 +20,11 @@ class PullModel:
 
 class PubModel:
     @staticmethod
-    def m_send_multipart(ex, o, msg, flags=0):
+    def m_send_multipart(ex, o, msg, flags=0, **kw):
         o.f['log'].append(list(msg))
         ex.__dict__.setdefault('events', []).append(('pub', o))
+        if kw:
+            ex.__dict__.setdefault('pub_kwargs', []).append(dict(kw))
 
 
 class QPollerModel:
